@@ -7,12 +7,14 @@ CONSTANTS Kinds <- K2
  TrimThreshold = 1
  GuardGeneration = "yes"
  ShareRefs = FALSE
+ OnFetchError = "error"
  MaxCalls = 2
  MaxVer = 1
  MaxInv = 1
  MaxTrim = 1
+ MaxFail = 0
 INVARIANTS Safety FetchExactlyMissing
-PROPERTIES DropsAffectedProp
+PROPERTIES DropsAffectedProp FailProp
 VIEW View
 SYMMETRY ReqSym
 CHECK_DEADLOCK FALSE
